@@ -154,6 +154,7 @@ func verifDaemon()
 func verifDormant()
 func verifNumGoroutinesBlocked() int
 func verifEncode(v any, n int) []byte
+func verifEncodeWithout(v any, n int, keys string) []byte
 func verifEventCount(kind string) int
 func verifEvent(kind string)
 func verifQuiesce()
